@@ -20,7 +20,7 @@ def run(ctx, pid, configs, explanation, bounds):
     quick = ctx.tier == 'quick'
     for name, cfg, queries, contracts in configs:
         res, t = ts.run_protocol(ctx, driver, name, cfg, queries, contracts=contracts, timeout_s=900 if quick else 3300,
-                                 confirm_depth=24 if quick else 34)
+                                 confirm_depth=24 if quick else 40)
         ts.post_protocol(ctx, driver, res)
         bounds.setdefault('transition_relations', []).append({'config': res['cfg'], 'state_leaves': res['leaves'], 'dag_nodes': res['size'],
                                                               'ssa_instructions': res['instrs'], 'extract_s': res['extract_s'], 'cuts': res['cuts']})
